@@ -122,6 +122,9 @@ type tracedExec struct {
 	*world.ExecDouble
 	t    *trace
 	node string
+	// heightOf, if set, reads the node's chain height; early, if set, receives "finalize asked for an uncommitted block"
+	heightOf func() uint64
+	early    func(h, chain uint64)
 }
 
 func (e *tracedExec) ExecuteTxs(ctx context.Context, txs [][]byte, h uint64, ts time.Time, prev []byte) ([]byte, uint64, error) {
@@ -130,6 +133,12 @@ func (e *tracedExec) ExecuteTxs(ctx context.Context, txs [][]byte, h uint64, ts 
 }
 func (e *tracedExec) SetFinal(ctx context.Context, h uint64) error {
 	defer e.t.begin(e.node + ".final")()
+	if e.heightOf != nil {
+		// the chain height is read after the call came in and only grows: below h now means below h at the call
+		if ch := e.heightOf(); ch < h && e.early != nil {
+			e.early(h, ch)
+		}
+	}
 	return e.ExecDouble.SetFinal(ctx, h)
 }
 func (e *tracedExec) GetTxs(ctx context.Context) ([][]byte, error) {
@@ -281,6 +290,28 @@ func runUniverse(r *vk.Run, cfg Config) {
 	yield := func() {
 		runtime.Gosched()
 	}
+	// finalize calls are checked against the chain height of the node that makes them
+	var aggRef, fullRef atomic.Pointer[world.Node]
+	var earlyMu sync.Mutex
+	var earlyFinal []string
+	heightFn := func(ref *atomic.Pointer[world.Node]) func() uint64 {
+		return func() uint64 {
+			if n := ref.Load(); n != nil {
+				h, _ := n.Store.Height(context.Background())
+				return h
+			}
+			return ^uint64(0)
+		}
+	}
+	earlyFn := func(node string) func(h, chain uint64) {
+		return func(h, chain uint64) {
+			earlyMu.Lock()
+			if len(earlyFinal) < 4 {
+				earlyFinal = append(earlyFinal, fmt.Sprintf("%s: the execution layer was asked to finalize height %d while the chain height was %d", node, h, chain))
+			}
+			earlyMu.Unlock()
+		}
+	}
 	// ---- aggregator
 	aexec := world.NewExecDouble()
 	if cfg.ExecDelayUs > 0 {
@@ -307,12 +338,13 @@ func runUniverse(r *vk.Run, cfg Config) {
 	}
 	proxy := &seqProxy{inner: seq, t: tr}
 	agg, err := world.NewNode(ctx, world.NodeOpts{Aggregator: true, Lazy: cfg.Lazy, BlockTime: cfg.BlockTime, DABlockTime: cfg.DATime, LazyInterval: 4 * cfg.BlockTime, MaxPending: cfg.MaxPending, GenesisTime: time.Now().Add(-time.Hour)},
-		keys, ads, &tracedExec{aexec, tr, "agg"}, proxy, &tracedDA{da, tr, "agg"}, nil)
+		keys, ads, &tracedExec{aexec, tr, "agg", heightFn(&aggRef), earlyFn("aggregator")}, proxy, &tracedDA{da, tr, "agg"}, nil)
 	if err != nil {
 		r.Violation("startup", err.Error(), cfg)
 		return
 	}
-	reaper := block.NewReaper(ctx, &tracedExec{aexec, tr, "agg"}, proxy, "verif-chain", cfg.BlockTime, logging.Logger("verif-reaper"), ads)
+	aggRef.Store(agg)
+	reaper := block.NewReaper(ctx, &tracedExec{ExecDouble: aexec, t: tr, node: "agg"}, proxy, "verif-chain", cfg.BlockTime, logging.Logger("verif-reaper"), ads)
 	reaper.SetManager(agg.M)
 	// ---- full node
 	fexec := world.NewExecDouble()
@@ -320,11 +352,12 @@ func runUniverse(r *vk.Run, cfg Config) {
 	fds := world.NewMemDS(fim)
 	fds.Yield = yield
 	full, err := world.NewNode(ctx, world.NodeOpts{Aggregator: false, BlockTime: cfg.BlockTime, DABlockTime: cfg.DATime, DAStartHeight: 1, GenesisTime: agg.Opts.GenesisTime},
-		keys, fds, &tracedExec{fexec, tr, "full"}, world.NewSeqDouble(), &tracedDA{da, tr, "full"}, nil)
+		keys, fds, &tracedExec{fexec, tr, "full", heightFn(&fullRef), earlyFn("full node")}, world.NewSeqDouble(), &tracedDA{da, tr, "full"}, nil)
 	if err != nil {
 		r.Violation("startup", err.Error(), cfg)
 		return
 	}
+	fullRef.Store(full)
 	// bridge: what the aggregator broadcasts reaches the full node's P2P stores as a fresh copy (as over the wire)
 	var bridgeMu sync.Mutex
 	pendingH := map[uint64]*types.SignedHeader{}
@@ -422,6 +455,18 @@ func runUniverse(r *vk.Run, cfg Config) {
 			ha, _ := agg.Store.Height(ctx)
 			hf, _ := full.Store.Height(ctx)
 			dA, dF := agg.M.GetDAIncludedHeight(), full.M.GetDAIncludedHeight()
+			// the DA-included heights were read first, the chain heights are read (again) afterwards: they only grow,
+			// so a DA-included height above the later chain height was above the chain when it was read
+			ha3, _ := agg.Store.Height(ctx)
+			hf3, _ := full.Store.Height(ctx)
+			r.Hit("live-da-included-below-height")
+			if dA > ha3 || dF > hf3 {
+				obsMu.Lock()
+				if len(obsViol) < 4 {
+					obsViol = append(obsViol, fmt.Sprintf("a DA-included height ran ahead of the chain while running: aggregator %d (chain height read afterwards %d), full node %d (chain height %d)", dA, ha3, dF, hf3))
+				}
+				obsMu.Unlock()
+			}
 			// the public read API of the manager is used by RPC handlers concurrently with the loops
 			sa, sf := agg.M.GetLastState(), full.M.GetLastState()
 			_, _ = agg.M.IsDAIncluded(ctx, dA+1)
@@ -505,6 +550,10 @@ func runUniverse(r *vk.Run, cfg Config) {
 	obsMu.Lock()
 	viol = append(viol, obsViol...)
 	obsMu.Unlock()
+	r.Hit("finalize-only-committed-blocks")
+	earlyMu.Lock()
+	viol = append(viol, earlyFinal...)
+	earlyMu.Unlock()
 	proxy.mu.Lock()
 	released := append([]world.SeqResp(nil), proxy.released...)
 	proxy.mu.Unlock()
